@@ -15,6 +15,7 @@ RULE = ("a transmitting driver and a peer radio; a case = (mode: auto-ack | ask_
         "of send(single|list)/resend with force_retry and send_only). Ground truth = the "
         "simulator's air log and PTX transaction record. Non-trivial: at least one attempt went "
         "on air; distinct = distinct (mode, arc, ard, call-sequence shape, loss pattern).")
+RULE += (" Later rounds added: receiving phases between two transmissions (ACK payloads loaded and not consumed; left by role change, power-down or the end of a with block), plain listen round trips, and: resend() with an empty TX FIFO must leave the RX FIFO alone.")
 REQUIRED = {"return_truth": 800, "attempt_count": 100, "no_leak": 800, "termination": 800,
             "ack_payload": 50, "resend_payload": 50, "resend_empty": 20}
 ASSUMPTIONS = ["termination is judged as bounded progress on the virtual clock: the call must "
